@@ -7,8 +7,14 @@ def run(c):
              'k_ffi_single_strings_match_and_are_reclaimed']
     obl_kani.run(c, names)
     obl_kani.obl_ffi_lifecycle_validation(c)
+    # "independently owned": the context functions of the C interface from MIR - what the context uses after the call returned is its own copy
+    # of the caller's Config (the caller may free or change its object at once)
+    import obl_context
+    c.only_clauses = {"context_keeps_its_own_copy_of_the_configuration"}
+    obl_context.obl_context(c, thorough=False, budget_s=600)
+    c.only_clauses = None
     c.assume("CString::from_raw is stubbed by the same ownership transfer with the length found by a loop (Kani cannot call the foreign strlen); "
              "the counting variant of the stub is how 'taken back exactly once' is observed; the Bijoy encoder is an injective tagging stub; "
              "both stubs are validated against the real build by the native life cycles")
     c.outside("call sequences over all 33 exported functions with a live context (the context functions need Data::new / file I/O, beyond CBMC's reach here): "
-              "only the Suggestion / Config / string functions are decided by the solver; the context functions are exercised by the native life cycles only")
+              "the Suggestion / Config / string functions are decided by Kani; of the context functions the solver decides configuration ownership (MIR executor, method objects as recording oracles), the rest is exercised by the native life cycles only")
